@@ -157,6 +157,14 @@ IDENT_POS = [
     ("def f({N}={V}):\n    def g({N}={V}): pass", 0), ("@dec({V})\ndef f({N}={V}): pass", 0),
     ("def f(a, {N}=None, b={V}): pass", 0), ("def f(p={V}, q={V}, /, {N}={V}, r={V}): pass", 0),
     ("def {N}(a={V}): pass", 0), ("def f(a={V}) -> {N}: pass", 0),
+    # positional-only / mixed layouts (defaults are shared between posonlyargs and args)
+    ("def f({N}={V}, /, token='b'): pass", 1), ("def f(a, b='x', /, c='y', *, {N}={V}): pass", 0),
+    ("def f(a, {N}={V}, /, c='y', *, k='z'): pass", 1), ("def f(a, b, /, c, {N}={V}): pass", 0),
+    ("def f({N}, b={V}, /, c='y'): pass", 0), ("def f(a=None, /, {N}={V}, *args, k={V}, **kw): pass", 0),
+    ("async def f(x='zzz', /, {N}={V}): pass", 1), ("async def f({N}={V}, /): pass", 0),
+    ("z = lambda x='zzz', /, {N}={V}: 0", 0), ("z = lambda {N}={V}, /: 0", 0),
+    ("class C:\n    def m(self, {N}={V}, /, other={V}): pass", 0),
+    ("def f(a={V}, b={V}, /, {N}=None): pass", 0), ("def f({N}=None, /, b={V}): pass", 0),
 ]
 
 KEY_POS = [
@@ -186,6 +194,12 @@ CURATED = [
     "def f(a='zzz', /, password=None): pass", "def f(a='real', /, password='hunter2'): pass",
     "def f(password='hunter2', /): pass", "def f(password='hunter2', /, x=1): pass",
     "def f(pw1='a', pw2='b', /, token='c', secret='d'): pass",
+    "def f(password='a', /, token='b'): pass", "def f(a, b='x', /, c='y', *, password='z'): pass",
+    "z = lambda password='x': 0", "z = lambda a='zzz', /, password='x': 0",
+    "async def f(password='a', /, token='b'): pass", "async def f(a='zzz', /, password=None): pass",
+    "def f(a, password='x', /): pass", "def f(a, b, /, password='x'): pass",
+    "def f(user='u', /, password=None, token='t'): pass", "def f(password=None, /, token='t'): pass",
+    "def f(password=b'x', /, token=f'y', secret='s'): pass",
     "f(**'x')", "f(**'x', **'y')", "f(a=1, **'x')", "f(**x, **'y')", "f(password=1, **'x')",
     "f(password='p', **'x')", "f(**'x', password='p')", "f(user='u', **'x', password='p')",
     "password = 'a'  # nosec", "password = 'a'  # nosec B105", "password = 'a'  # nosec B106",
@@ -342,7 +356,7 @@ def password_programs(rng):
     # A: every identifier x every core position, value rotating
     for i, n in enumerate(idents):
         for j, t in enumerate(core):
-            if (i + j) % 4 == 3:
+            if (i + j) % 3 == 2:
                 continue
             v = CORE_VALUES[k % len(CORE_VALUES)]
             k += 1
